@@ -32,6 +32,8 @@ PANIC_TABLE = {
         "C05: index function stays inside the slider table for every occupancy (audited)",
     ("get_rook_moves", "assert", "BoundsCheck"):
         "C05: index function stays inside the slider table for every occupancy (audited)",
+    ("pext::get_pext_index", "assert", "Overflow:Add(usize)"):
+        "PEXT back end: C05 evaluates offset + pext(occupancy, mask) for every square and relevant subset and finds it inside the table",
     ("<PieceMovesIter as core::iter::traits::iterator::Iterator>::next", "panic", "panic"):
         "unreachable!() arm of the promotion counter; C17 proves the counter stays in 0..=3",
     ("<PieceMovesIter as core::iter::traits::exact_size::ExactSizeIterator>::len", "assert", "Overflow:Sub(usize)"):
